@@ -26,26 +26,25 @@ Theorem ordinal_py_rejects_iff_invalid : forall y n, 0 <= n <= 999 ->
 Proof. exact py_ordinal_reject. Qed.
 Print Assumptions ordinal_py_rejects_iff_invalid.
 
-(* compiled parser: the property is FALSE of the code as it is (`ord < MONTHS_OFFSETS[leap][i]`), witness 2021-031 *)
-Theorem ordinal_rs_spec_refuted : exists y n, 1 <= y /\ 1 <= n <= days_in_year y /\
-  rs_ordinal_to_ymd y n false <> Some (ord2ymd (ymd2ord y 1 1 + n - 1)).
-Proof. exact rs_ordinal_refuted. Qed.
-Print Assumptions ordinal_rs_spec_refuted.
-
-(* ... and it holds on exactly the rest: every day that is not the last day of a month.
-   Missing for the full statement: the one-character repair `<=` (proposed_fixes/C07-rs-ordinal-month-end.diff). *)
-Theorem ordinal_rs_spec_partial : forall y n, 0 <= y -> 1 <= n <= days_in_year y ->
-  is_month_end_yday (is_leap y) n = false ->
+(* compiled parser, every year (finding rs-ordinal-month-end repaired: `ord <= MONTHS_OFFSETS[leap][i]`): the conversion equals the
+   calendar on EVERY day of the year — the last day of each month and day 365/366 included (before the repair: witness 2021-031) *)
+Theorem ordinal_rs_spec : forall y n, 0 <= y -> 1 <= n <= days_in_year y ->
   rs_ordinal_to_ymd y n false = Some (ord2ymd (ymd2ord y 1 1 + n - 1)).
-Proof. exact rs_ordinal_partial. Qed.
-Print Assumptions ordinal_rs_spec_partial.
+Proof. exact rs_ordinal_spec. Qed.
+Print Assumptions ordinal_rs_spec.
 
-(* on the last day of a month the compiled conversion answers day 0 (of the next month) or refuses: never a valid date *)
-Theorem ordinal_rs_month_end_never_valid : forall y n, 0 <= y -> 1 <= n <= days_in_year y ->
-  is_month_end_yday (is_leap y) n = true ->
-  match rs_ordinal_to_ymd y n false with Some (y', m, d) => d = 0 | None => True end.
-Proof. exact rs_ordinal_month_end_rejected. Qed.
-Print Assumptions ordinal_rs_month_end_never_valid.
+(* the former witnesses of the finding are instances *)
+Theorem ordinal_rs_month_end_witnesses :
+  rs_ordinal_to_ymd 2021 31 false = Some (2021, 1, 31) /\ rs_ordinal_to_ymd 2021 365 false = Some (2021, 12, 31) /\
+  rs_ordinal_to_ymd 2020 60 false = Some (2020, 2, 29) /\ rs_ordinal_to_ymd 2020 366 false = Some (2020, 12, 31).
+Proof. exact rs_ordinal_month_end_witnesses. Qed.
+Print Assumptions ordinal_rs_month_end_witnesses.
+
+(* hence the two backends agree on every existing day of every year *)
+Theorem ordinal_rs_eq_py : forall y n, 0 <= y -> 1 <= n <= days_in_year y ->
+  exists m d, py_iso_ordinal_md y n = Ok (m, d) /\ rs_ordinal_to_ymd y n false = Some (y, m, d).
+Proof. exact rs_ordinal_eq_py. Qed.
+Print Assumptions ordinal_rs_eq_py.
 
 Theorem ordinal_rs_rejects_out_of_range : forall y n, 0 <= y -> (n < 1 \/ n > days_in_year y) -> rs_ordinal_to_ymd y n false = None.
 Proof. exact rs_ordinal_reject. Qed.
@@ -63,17 +62,24 @@ Theorem week_py_rejects_impossible : forall y w wd, (w > iso_weeks_in_year y /\ 
 Proof. exact py_week_reject. Qed.
 Print Assumptions week_py_rejects_impossible.
 
-(* compiled: right whenever the target day is not the last day of a month (inherits the ordinal defect) *)
-Theorem week_rs_spec_partial : forall y w wd, 2 <= y -> 1 <= w <= iso_weeks_in_year y -> 1 <= wd <= 7 ->
-  (let '(yy, mm, dd) := ord2ymd (fromisocalendar_ord y w wd) in dd <> dim yy mm) ->
+(* compiled (finding rs-ordinal-month-end repaired): equals date.fromisocalendar for every ISO year >= 1, every week of that year and
+   every weekday, month ends and year ends included (before the repair: witness 2021-W13-3) *)
+Theorem week_rs_spec : forall y w wd, 1 <= y -> 1 <= w <= iso_weeks_in_year y -> 1 <= wd <= 7 ->
   rs_iso_to_ymd y w wd = Some (ord2ymd (fromisocalendar_ord y w wd)).
-Proof. exact rs_week_partial. Qed.
-Print Assumptions week_rs_spec_partial.
+Proof. exact rs_week_spec. Qed.
+Print Assumptions week_rs_spec.
 
-Theorem week_rs_spec_refuted : exists y w wd, 2 <= y /\ 1 <= w <= iso_weeks_in_year y /\ 1 <= wd <= 7 /\
-  rs_iso_to_ymd y w wd <> Some (ord2ymd (fromisocalendar_ord y w wd)).
-Proof. exact rs_week_refuted. Qed.
-Print Assumptions week_rs_spec_refuted.
+Theorem week_rs_month_end_witnesses :
+  rs_iso_to_ymd 2021 13 3 = Some (2021, 3, 31) /\ rs_iso_to_ymd 2020 53 4 = Some (2020, 12, 31) /\
+  rs_iso_to_ymd 2024 9 4 = Some (2024, 2, 29) /\ rs_iso_to_ymd 2019 1 1 = Some (2018, 12, 31).
+Proof. exact rs_week_month_end_witnesses. Qed.
+Print Assumptions week_rs_month_end_witnesses.
+
+(* hence the two backends agree on every week date of the years the pure-Python path supports *)
+Theorem week_rs_eq_py : forall y w wd, 1001 <= y <= 9998 -> 1 <= w <= iso_weeks_in_year y -> 1 <= wd <= 7 ->
+  exists r, py_get_week y w (Some wd) = Ok r /\ rs_iso_to_ymd y w wd = Some r.
+Proof. exact rs_week_eq_py. Qed.
+Print Assumptions week_rs_eq_py.
 
 Theorem week_rs_rejects_impossible : forall y w wd, 1 <= y -> (w > iso_weeks_in_year y /\ 1 <= w) \/ wd > 7 -> rs_iso_to_ymd y w wd = None.
 Proof. exact rs_week_reject. Qed.
